@@ -55,6 +55,10 @@ pub enum FileKind {
     IncMissing,
     /// the I/O error on this file goes away (transient fault): content and mtime stay as they are
     EioCleared,
+    /// an otherwise valid file with one record of another class than the zone's: must not load
+    OtherClassRecord,
+    /// a file that is valid throughout - for the other class (IN <-> CH): must not load
+    AllOtherClass,
 }
 #[derive(Clone, Debug, Serialize, Deserialize)]
 pub struct Edit {
@@ -159,6 +163,11 @@ pub(crate) fn zone_text(zone: usize, kind: &FileKind) -> Option<Vec<u8>> {
             FileKind::Syntax => format!("{head}@ {c} SOA ( ns.elsewhere. h.elsewhere. 9 60 60 60 60\n{ns}{}", marker(9)),
             FileKind::NoSoa => format!("{head}{ns}{}", marker(9)),
             FileKind::NoNs => format!("{head}{}{}", soa(9), marker(9)),
+            FileKind::OtherClassRecord => format!("{}version {} TXT \"x\"\n", valid(9), class_str(if class == 3 { 1 } else { 3 })),
+            FileKind::AllOtherClass => {
+                let o = class_str(if class == 3 { 1 } else { 3 });
+                format!("{head}@ {o} SOA ns.elsewhere. h.elsewhere. 9 60 60 60 60\n@ {o} NS ns.elsewhere.\nmarker {o} TXT \"{name} v9\"\n")
+            }
             FileKind::OutOfZone => format!("{head}{}{ns}{}outside.elsewhere. {c} TXT \"x\"\n", soa(9), marker(9)),
             // relative include path: resolved against the including file's directory
             FileKind::WithInclude(v) => format!("{head}{}{ns}$INCLUDE z{zone}.inc\n", soa(*v)),
@@ -259,7 +268,7 @@ impl Prop for C31 {
             for _ in 0..nedits {
                 let (zone, path) = if !zones.is_empty() && chance(r, 85) { *pick(r, &zones) } else { (r.below(UNIVERSE.len() as u64) as usize, r.below(PATHS as u64) as usize) };
                 version += 1;
-                let mut kind = match r.below(24) {
+                let mut kind = match r.below(26) {
                     16 => FileKind::WarningOnly(version),
                     17 => FileKind::ErrorAndWarning,
                     0..=7 => FileKind::Valid(version),
@@ -267,6 +276,8 @@ impl Prop for C31 {
                     9 => FileKind::NoSoa,
                     10 => FileKind::NoNs,
                     11 => FileKind::OutOfZone,
+                    24 => FileKind::OtherClassRecord,
+                    25 => FileKind::AllOtherClass,
                     12 => FileKind::Missing,
                     13 => FileKind::Dir,
                     14 => FileKind::Eio(version, range(r, 0, 100) as usize),
@@ -417,7 +428,7 @@ impl Prop for C31 {
         h
     }
     fn rule() -> String {
-        "one execution = one history of 2-6 steps; each step edits the configuration (add/remove nested zones of a 5-zone universe incl. a CH-class zone, change a zone's path, reorder) and zone files (valid new version, syntax error, no SOA, no NS, out-of-zone record, missing, directory, EIO after k octets - possibly transient: cleared later with content and mtime unchanged -, torn after k octets, unchanged, a main file that $INCLUDEs a second file holding the marker record, and edits of that include file alone: valid / broken / removed), sometimes breaks the configuration file itself (invalid TOML, duplicate zone, missing), then reloads - by calling the SIGHUP handler body, or (a sixth of the runs) by raising SIGHUP on the whole simulated daemon, started from a configuration file or from command-line zones - and queries every zone of the universe (marker TXT and SOA, own class); optional short reads on every file read; in a quarter of the runs 1-3 query threads run concurrently with every reload under a seeded schedule (random / PCT) and each of their answers must come from the state before or after that reload, and from the new state once the reload has returned. Non-trivial = at least one failing file or configuration; distinct = distinct scenario".into()
+        "one execution = one history of 2-6 steps; each step edits the configuration (add/remove nested zones of a 5-zone universe incl. a CH-class zone, change a zone's path, reorder) and zone files (valid new version, syntax error, no SOA, no NS, out-of-zone record, a record of another class than the zone's, a file valid only for the other class, missing, directory, EIO after k octets - possibly transient: cleared later with content and mtime unchanged -, torn after k octets, unchanged, a main file that $INCLUDEs a second file holding the marker record, and edits of that include file alone: valid / broken / removed), sometimes breaks the configuration file itself (invalid TOML, duplicate zone, missing), then reloads - by calling the SIGHUP handler body, or (a sixth of the runs) by raising SIGHUP on the whole simulated daemon, started from a configuration file or from command-line zones - and queries every zone of the universe (marker TXT and SOA, own class); optional short reads on every file read; in a quarter of the runs 1-3 query threads run concurrently with every reload under a seeded schedule (random / PCT) and each of their answers must come from the state before or after that reload, and from the new state once the reload has returned. Non-trivial = at least one failing file or configuration; distinct = distinct scenario".into()
     }
     fn assumptions() -> Vec<String> {
         vec![
